@@ -1,8 +1,11 @@
 package main
 
 import (
+	"fmt"
 	"go/token"
 	"go/types"
+	"os"
+	"sort"
 	"strings"
 
 	"golang.org/x/tools/go/ssa"
@@ -424,6 +427,10 @@ func (c *Ctx) checkAtomicFailure(r *Result, rule string, fn *ssa.Function, isMut
 			continue
 		}
 		if first != nil {
+			if why, ok := c.failureCompensated(fn, muts, srcs, ret, isMutCallee); ok {
+				r.Hold(rule, construct+"#rolled-back", c.InstrPos(ret), why)
+				continue
+			}
 			r.Viol(rule, construct+"#after-mutation", c.InstrPos(ret), "this logical failure exit is reachable after state was changed / a structure was rewritten in place at "+c.InstrPos(first))
 		} else {
 			r.Hold(rule, construct, c.InstrPos(ret), "no mutation can precede this failure exit")
@@ -891,4 +898,362 @@ func init() {
 		isWOH := func(n string) bool { return n == "core.WriteObjectHeader" }
 		c.checkNoErrorAfterStore(r, "C16.9", rz, isWOH, false, "hdf5.DatasetWriter.dims", "hdf5.DatasetWriter.dataSize", "hdf5.DatasetWriter.chunkCoordinator", "core.HeaderMessage.Data")
 	})
+}
+
+// failureCompensated: the failure exit ret lies behind mutations, but they are undone or cannot matter:
+//   - the error comes from exactly one call F whose own rejections (constructed errors) all happen before it touches the file;
+//   - every store to existing state that can precede ret - in fn itself or in the memory-only part of a mutating callee - goes to
+//     a field that fn assigns again, on every path from F to ret, a value it loaded before the mutation (save / restore);
+//   - a callee that writes to the file reaches its own success only through a call of the same function as F: the header it
+//     wrote a moment ago is the one F was asked to write, so F's rejection cannot follow it.
+func (c *Ctx) failureCompensated(fn *ssa.Function, muts []ssa.Instruction, srcs []errSource, ret *ssa.Return, isMutCallee func(string) bool) (string, bool) {
+	dbg := os.Getenv("H5SA_DEBUG_COMP") != "" && strings.Contains(c.Name(fn), os.Getenv("H5SA_DEBUG_COMP"))
+	if len(srcs) != 1 || srcs[0].Fresh || srcs[0].Call == nil {
+		return "", dbgFalse(dbg, 101)
+	}
+	F := srcs[0].Call
+	f := F.Call.StaticCallee()
+	if f == nil || f.Blocks == nil || !c.rejectsBeforeIO(f, 0) {
+		if dbg {
+			fmt.Fprintln(os.Stderr, "comp:", c.Name(fn), "rejectsBeforeIO fails for", c.calleeName(F))
+		}
+		return "", dbgFalse(dbg, 102)
+	}
+	restored := func(key string, m ssa.Instruction) bool {
+		return mustPrecede(ret, func(in ssa.Instruction) bool {
+			st, ok := in.(*ssa.Store)
+			if !ok || !canReach(F, st) {
+				return dbgFalse(dbg, 1)
+			}
+			k := ""
+			switch a := st.Addr.(type) {
+			case *ssa.FieldAddr:
+				if fld, base := fieldOfAddr(a); fld != nil {
+					k = fieldKey(base.Type(), fld)
+				}
+			}
+			if k != key {
+				return dbgFalse(dbg, 2)
+			}
+			// the value is a load of the same field made before the mutation
+			ld, isLd := st.Val.(*ssa.UnOp)
+			if !isLd {
+				if phi, isPhi := st.Val.(*ssa.Phi); isPhi {
+					for _, e := range phi.Edges {
+						if u, isU := e.(*ssa.UnOp); isU {
+							ld, isLd = u, true
+						}
+					}
+				}
+			}
+			if !isLd {
+				return dbgFalse(dbg, 3)
+			}
+			lk, _ := fieldLoadKey(ld)
+			return lk == key && canReach(ld, m) && !canReach(m, ld)
+		})
+	}
+	var fileRoots []string
+	var keys []string
+	var visit func(h *ssa.Function, m ssa.Instruction, depth int) bool
+	visit = func(h *ssa.Function, m ssa.Instruction, depth int) bool {
+		if depth > 4 {
+			return dbgFalse(dbg, 4)
+		}
+		dm := c.directMutations(h)
+		writesFile := false
+		for _, d := range dm {
+			if _, isCall := d.(ssa.CallInstruction); isCall {
+				writesFile = true
+			}
+		}
+		if writesFile {
+			// every success return of h lies behind a call of f
+			for _, b := range h.Blocks {
+				r2, isRet := b.Instrs[len(b.Instrs)-1].(*ssa.Return)
+				if !isRet || !isSuccessReturn(r2) {
+					continue
+				}
+				if !mustPrecede(r2, func(in ssa.Instruction) bool {
+					call, ok := in.(*ssa.Call)
+					return ok && call.Call.StaticCallee() == f
+				}) {
+					if dbg {
+						fmt.Fprintln(os.Stderr, "comp:", c.Name(fn), "file-writing callee", c.Name(h), "has a success return not behind", c.Name(f))
+					}
+					return dbgFalse(dbg, 5)
+				}
+			}
+			fileRoots = append(fileRoots, c.Name(h))
+			return true
+		}
+		for _, d := range dm {
+			st, isSt := d.(*ssa.Store)
+			if !isSt {
+				return dbgFalse(dbg, 6)
+			}
+			fa, isFA := st.Addr.(*ssa.FieldAddr)
+			if !isFA {
+				return dbgFalse(dbg, 7)
+			}
+			fld, base := fieldOfAddr(fa)
+			if fld == nil {
+				return dbgFalse(dbg, 8)
+			}
+			key := fieldKey(base.Type(), fld)
+			if !restored(key, m) && !c.guardedRestore(fn, h, st, m, F, ret, key) {
+				if dbg {
+					fmt.Fprintln(os.Stderr, "comp:", c.Name(fn), "not restored:", key, "stored in", c.Name(h))
+				}
+				return dbgFalse(dbg, 9)
+			}
+			keys = append(keys, key)
+		}
+		for _, site := range callsIn(h) {
+			if _, isDefer := site.(*ssa.Defer); isDefer {
+				continue
+			}
+			for _, k := range c.Callees(site) {
+				if k != h && isMutCallee(c.Name(k)) && k.Blocks != nil {
+					if !visit(k, m, depth+1) {
+						return dbgFalse(dbg, 10)
+					}
+				}
+			}
+		}
+		return true
+	}
+	for _, m := range muts {
+		if m == ssa.Instruction(F) || !canReach(m, ret) {
+			continue
+		}
+		switch x := m.(type) {
+		case *ssa.Store:
+			// a store that puts back a value loaded from the same field earlier is the restore itself
+			val := x.Val
+			if phi, isPhi := val.(*ssa.Phi); isPhi {
+				for _, e := range phi.Edges {
+					if u, isU := e.(*ssa.UnOp); isU {
+						val = u
+					}
+				}
+			}
+			if ld, isLd := val.(*ssa.UnOp); isLd && canReach(F, x) {
+				if fa0, ok := x.Addr.(*ssa.FieldAddr); ok {
+					if fld0, base0 := fieldOfAddr(fa0); fld0 != nil {
+						if lk, _ := fieldLoadKey(ld); lk == fieldKey(base0.Type(), fld0) && !canReach(F, ld) {
+							continue
+						}
+					}
+				}
+			}
+			fa, isFA := x.Addr.(*ssa.FieldAddr)
+			if !isFA {
+				return "", dbgFalse(dbg, 103)
+			}
+			fld, base := fieldOfAddr(fa)
+			if fld == nil || !restored(fieldKey(base.Type(), fld), m) {
+				return "", dbgFalse(dbg, 104)
+			}
+			keys = append(keys, fieldKey(base.Type(), fld))
+		case ssa.CallInstruction:
+			ok := false
+			for _, g := range c.Callees(x) {
+				if isMutCallee(c.Name(g)) && g.Blocks != nil {
+					if !visit(g, m, 0) {
+						return "", dbgFalse(dbg, 105)
+					}
+					ok = true
+				}
+			}
+			if !ok {
+				return "", dbgFalse(dbg, 106)
+			}
+		default:
+			return "", dbgFalse(dbg, 107)
+		}
+	}
+	if len(keys) == 0 && len(fileRoots) == 0 {
+		return "", dbgFalse(dbg, 108)
+	}
+	sort.Strings(keys)
+	sort.Strings(fileRoots)
+	why := c.calleeName(F) + " rejects a request before it touches the file"
+	if len(keys) > 0 {
+		why += "; the fields changed before it (" + strings.Join(uniqStrings(keys), ", ") + ") are assigned their saved values again on every path to this exit"
+	}
+	if len(fileRoots) > 0 {
+		why += "; the callees that write to the file (" + strings.Join(uniqStrings(fileRoots), ", ") + ") return success only after the same call succeeded"
+	}
+	return why, true
+}
+
+// rejectsBeforeIO: in f and the module functions it calls, no constructed error is returned after an I/O primitive or a file
+// write was reached: a rejection leaves the file as it was.
+func (c *Ctx) rejectsBeforeIO(f *ssa.Function, depth int) bool {
+	if f.Blocks == nil || depth > 3 {
+		return depth <= 3
+	}
+	idx := errResultIndex(f.Signature)
+	if idx < 0 {
+		return true
+	}
+	var ios []ssa.Instruction
+	for _, site := range callsIn(f) {
+		call, isCall := site.(*ssa.Call)
+		if !isCall {
+			continue
+		}
+		if c.ioPrimitiveCall(call) {
+			ios = append(ios, call)
+			continue
+		}
+		if _, ok := c.fileWriteAddr(site); ok {
+			ios = append(ios, call)
+			continue
+		}
+		if g := call.Call.StaticCallee(); g != nil && g.Blocks != nil && inModule(fnPkgPath(g)) && errResultIndex(g.Signature) >= 0 {
+			if !c.rejectsBeforeIO(g, depth+1) {
+				return false
+			}
+			// a callee that may do I/O counts as I/O for what follows it here
+			if c.reachesIO(g, 0) {
+				ios = append(ios, call)
+			}
+		}
+	}
+	for _, ret := range errorReturns(f) {
+		fresh := false
+		for _, s := range errorSources(retOperand(ret, idx)) {
+			if s.Fresh {
+				fresh = true
+			}
+		}
+		if !fresh {
+			continue
+		}
+		for _, io := range ios {
+			if canReach(io, ret) {
+				return false
+			}
+		}
+	}
+	return true
+}
+
+func (c *Ctx) reachesIO(f *ssa.Function, depth int) bool {
+	if f.Blocks == nil || depth > 4 {
+		return true
+	}
+	for _, site := range callsIn(f) {
+		call, isCall := site.(*ssa.Call)
+		if !isCall {
+			continue
+		}
+		if c.ioPrimitiveCall(call) {
+			return true
+		}
+		if _, ok := c.fileWriteAddr(site); ok {
+			return true
+		}
+		if g := call.Call.StaticCallee(); g != nil && g.Blocks != nil && inModule(fnPkgPath(g)) && c.reachesIO(g, depth+1) {
+			return true
+		}
+	}
+	return false
+}
+
+func uniqStrings(in []string) []string {
+	var out []string
+	for i, s := range in {
+		if i == 0 || s != in[i-1] {
+			out = append(out, s)
+		}
+	}
+	return out
+}
+
+func dbgFalse(dbg bool, n int) bool {
+	if dbg {
+		fmt.Fprintln(os.Stderr, "comp: exit", n)
+	}
+	return false
+}
+
+// guardedRestore: the callee h stores to key only under a test of one of its parameters against a constant (existingIndex >= 0);
+// fn restores the field under the same test of the argument it passed, and that test lies on every path from the failing call
+// to the exit. Where the test is false neither the store nor the restore happens.
+func (c *Ctx) guardedRestore(fn, h *ssa.Function, st *ssa.Store, m ssa.Instruction, F *ssa.Call, ret *ssa.Return, key string) bool {
+	call, ok := m.(ssa.CallInstruction)
+	if !ok || call.Common().StaticCallee() != h {
+		return false
+	}
+	type guard struct {
+		op   token.Token
+		k    int64
+		v    ssa.Value
+		edge int
+	}
+	guardOf := func(blk *ssa.BasicBlock) (guard, *ssa.BasicBlock, bool) {
+		for b := blk.Idom(); b != nil; b = b.Idom() {
+			ifi, isIf := b.Instrs[len(b.Instrs)-1].(*ssa.If)
+			if !isIf {
+				continue
+			}
+			for e := 0; e < 2; e++ {
+				if edgeDominates(b, b.Succs[e], blk) {
+					bo, isBO := ifi.Cond.(*ssa.BinOp)
+					if !isBO {
+						return guard{}, nil, false
+					}
+					k, isK := constInt(bo.Y)
+					if !isK {
+						return guard{}, nil, false
+					}
+					return guard{bo.Op, k, bo.X, e}, b, true
+				}
+			}
+		}
+		return guard{}, nil, false
+	}
+	gh, _, ok1 := guardOf(st.Block())
+	if !ok1 {
+		return false
+	}
+	p, isParam := gh.v.(*ssa.Parameter)
+	if !isParam {
+		return false
+	}
+	idx := paramIndex(h, p)
+	if idx < 0 || idx >= len(call.Common().Args) {
+		return false
+	}
+	arg := call.Common().Args[idx]
+	// the restoring store in fn
+	found := false
+	instrs(fn, func(in ssa.Instruction) {
+		rs, isSt := in.(*ssa.Store)
+		if !isSt || !canReach(F, rs) || found {
+			return
+		}
+		fa, isFA := rs.Addr.(*ssa.FieldAddr)
+		if !isFA {
+			return
+		}
+		fld, base := fieldOfAddr(fa)
+		if fld == nil || fieldKey(base.Type(), fld) != key {
+			return
+		}
+		gf, gb, ok2 := guardOf(rs.Block())
+		if !ok2 || gf.op != gh.op || gf.k != gh.k || gf.edge != gh.edge || gf.v != arg {
+			return
+		}
+		// the test lies on every path from F to the exit
+		if !mustPrecede(ret, func(x ssa.Instruction) bool { return x == gb.Instrs[len(gb.Instrs)-1] && canReach(F, x) }) {
+			return
+		}
+		// and within its arm the store lies on every path to the exit: the arm's entry block reaches ret only through rs
+		found = rs.Block() == gb.Succs[gf.edge] || gb.Succs[gf.edge].Dominates(rs.Block())
+	})
+	return found
 }
